@@ -964,6 +964,9 @@ class HfProtocol(utils.EventEmitter):
 
             logger.info("supported HF indicators:")
             for indicator in response.parameters[0]:
+                if not indicator:
+                    # "()" (no HF indicator supported) parses as one empty token
+                    continue
                 indicator = HfIndicator(int(indicator))
                 logger.info(f"  - {indicator.name}")
                 if indicator in self.hf_indicators:
